@@ -10,3 +10,10 @@ Definition image_within2 (n m : nat) (f : nat -> nat -> nat) (size : nat) : Prop
 (* size is the minimal storage size: a bound that is attained *)
 Definition minimal_size2 (n m : nat) (f : nat -> nat -> nat) (size : nat) : Prop :=
   image_within2 n m f size /\ exists i j, i < n /\ j < m /\ f i j = size - 1.
+
+(* ---- views (one index) *)
+Definition injective_on1 (n : nat) (f : nat -> nat) : Prop := forall i i', i < n -> i' < n -> f i = f i' -> i = i'.
+(* the image of the index box is exactly the set P of addresses *)
+Definition image_is1 (n : nat) (f : nat -> nat) (P : nat -> Prop) : Prop := forall a, (exists i, i < n /\ f i = a) <-> P a.
+Definition image_is2 (n m : nat) (f : nat -> nat -> nat) (P : nat -> Prop) : Prop :=
+  forall a, (exists i j, i < n /\ j < m /\ f i j = a) <-> P a.
